@@ -3,7 +3,7 @@
    verifier accepts a signature iff it is the MAC recorded in one of the signing facts [facts] (the only MACs
    that exist for the secret keys) for exactly the derived key material and string to sign — i.e. MAC
    unforgeability and injectivity in the message are the explicit premise, built into [verify]. *)
-From Verif Require Import Bytes Codec SigV4 SigV4Spec SigV4EncProofs SigV4SortProofs SigV4AuthProofs C28Proofs.
+From Verif Require Import Bytes Codec SigV4 SigV4Spec SigV4EncProofs SigV4HdrProofs SigV4SortProofs SigV4AuthProofs C28Proofs.
 From Coq Require Import Permutation.
 
 (* 1. soundness of acceptance: a request is authenticated as [id] only if [id] is a configured credential, the
@@ -66,13 +66,16 @@ Proof. intros e e' H. rewrite <- (canon_uri_body_decode e), <- (canon_uri_body_d
 Print Assumptions C28_canonical_uri_determines_path.
 
 (* 6. two requests with the same canonical request agree on everything the signature is meant to protect:
-   method, decoded path, parameter multiset, every signed header (name, value trimmed at the ends, multiple values
-   joined by ','), and the payload line (body hash, or the declared literal).
+   method, decoded path, parameter multiset, every signed header (name; each value after Trimall — white space at
+   the ends stripped and every run of spaces collapsed to one space; multiple values joined by ','), and the
+   payload line (body hash, or the declared literal).
    Caveats, part of the statement: requests are as net/http delivers them (no LF in method, host, header names and
    values; no ':' in header names); the path is compared after percent-decoding; the query after url.ParseQuery
    (pairs containing ';' or a malformed escape are invisible to canonicalisation and to r.URL.Query() alike);
-   header values up to white space at the ends and up to splitting at ','; headers that are neither signed nor
-   x-amz-* / Content-MD5 are not protected. *)
+   header values up to Trimall and up to splitting at ',': since /repo bc241f9 two values that differ only in
+   white space at the ends or in the LENGTH of runs of inner spaces are deliberately identified, as the SigV4
+   specification prescribes (made precise by C28_signed_header_values_up_to_trimall below); headers that are
+   neither signed nor x-amz-* / Content-MD5 are not protected. *)
 Theorem C28_same_canonical_request_same_request : forall r esc names pre r0 esc0 names0 pre0,
   (~ In nl (r_method r) /\ ~ In nl (r_host r) /\
    forall k vs, In (k, vs) (r_headers r) -> ~ In ":"%byte k /\ ~ In nl k /\ Forall (fun v => ~ In nl v) vs) ->
@@ -118,13 +121,27 @@ Theorem C28_altered_request_rejected : forall cfg now r id k0 alg0 ts0 sc0 mac0 
 Proof. exact altered_request_rejected. Qed.
 Print Assumptions C28_altered_request_rejected.
 
-(* 8. every x-amz-* / Content-MD5 header of an authenticated request is part of the signed header block with
-   its (trimmed, joined) value — adding such a header after signing changes the canonical request *)
+(* 8. every signed header of a request (in particular every x-amz-* / Content-MD5 header of an authenticated one,
+   by theorem 1) is a line of the signed header block, carrying the ','-join of its Trimall'ed values — adding or
+   changing such a header after signing changes the canonical request unless the change is one Trimall erases *)
 Theorem C28_sensitive_headers_are_in_the_canonical_request : forall host h names k vs,
   In (k, vs) h -> mem_bytes (to_lower k) names = true ->
-  In (to_lower k, trim_space (join B"," vs)) (collect_signed_headers host h names).
-Proof. exact signed_header_in_block. Qed.
+  In (to_lower k, join B"," (map spec_trimall vs)) (collect_signed_headers host h names).
+Proof.
+  intros host h names k vs Hin Hm. rewrite <- (map_ext _ _ canonical_header_value_eq_spec).
+  exact (signed_header_in_block host h names k vs Hin Hm).
+Qed.
 Print Assumptions C28_sensitive_headers_are_in_the_canonical_request.
+
+(* 9. the caveat made precise: the line of a header depends on its values only through Trimall and the ','-join;
+   e.g. "a  b" and " a b " give the same line, "a b" and "ab" (or "a\tb") do not *)
+Theorem C28_signed_header_values_up_to_trimall : forall host h h' names,
+  map (fun kv => (to_lower (fst kv), join B"," (map spec_trimall (snd kv)))) h =
+  map (fun kv => (to_lower (fst kv), join B"," (map spec_trimall (snd kv)))) h' ->
+  spec_trimall host = spec_trimall host ->
+  collect_signed_headers host h names = collect_signed_headers host h' names.
+Proof. exact header_block_up_to_trimall. Qed.
+Print Assumptions C28_signed_header_values_up_to_trimall.
 
 (* ---- non-vacuity: a signed request is accepted, its mutants are not ---- *)
 Definition ex_cfg : config := {| c_region := B"eu-central-1"; c_creds := [(B"AK", B"secret")] |}.
